@@ -16,10 +16,10 @@ Ltac sign_split :=
   repeat match goal with
          | |- context [sign ?z] =>
              let H := fresh "Hs" in let E := fresh "Es" in
-             destruct (sign_cases z) as [[H E]|[[H E]|[H E]]]; rewrite ?E in *
+             destruct (sign_cases z) as [[H E]|[[H E]|[H E]]]; rewrite ?E in *; clear E
          | H0 : context [sign ?z] |- _ =>
              let H := fresh "Hs" in let E := fresh "Es" in
-             destruct (sign_cases z) as [[H E]|[[H E]|[H E]]]; rewrite ?E in *
+             destruct (sign_cases z) as [[H E]|[[H E]|[H E]]]; rewrite ?E in *; clear E
          end.
 
 Ltac kin_arith :=
